@@ -29,3 +29,292 @@ Proof.
   apply map_ext. intro x. unfold nonctx_glyph.
   destruct (aat_value l RGlyph ng (gid x)); reflexivity.
 Qed.
+
+(* ------------------------------------------------------------------ arrays: aset / aget *)
+
+Local Close Scope N_scope.
+Local Open Scope nat_scope.
+
+Lemma upd_nth_length : forall A (l : list A) i v, length (upd_nth l i v) = length l.
+Proof. induction l; intros [|i] v; cbn; auto. Qed.
+
+Lemma nth_upd_nth : forall A (l : list A) i v j d, i < length l ->
+  nth j (upd_nth l i v) d = if j =? i then v else nth j l d.
+Proof.
+  induction l; intros [|i] v [|j] d H; cbn in *; try lia; auto.
+  apply IHl. lia.
+Qed.
+
+Lemma aset_length : forall a i x, length (aset a i x) = length a.
+Proof. intros. apply upd_nth_length. Qed.
+
+Lemma nth_aset_eq : forall a i x d, i < length a -> nth i (aset a i x) d = x.
+Proof. intros. unfold aset. rewrite nth_upd_nth by auto. now rewrite Nat.eqb_refl. Qed.
+
+Lemma nth_aset_neq : forall a i x j d, i < length a -> j <> i -> nth j (aset a i x) d = nth j a d.
+Proof.
+  intros. unfold aset. rewrite nth_upd_nth by auto.
+  destruct (Nat.eqb_spec j i); [contradiction|reflexivity].
+Qed.
+
+(* ---- copy_loop, forwards: for i in 0..n: a[dst+i] = a[src+i], dst <= src *)
+Lemma copy_fwd : forall n a dst src, dst <= src -> src + n <= length a ->
+  length (copy_loop a dst src (seq 0 n)) = length a /\
+  (forall j, dst <= j < dst + n -> nth j (copy_loop a dst src (seq 0 n)) dflt_info = nth (src + (j - dst)) a dflt_info) /\
+  (forall j, ~ (dst <= j < dst + n) -> nth j (copy_loop a dst src (seq 0 n)) dflt_info = nth j a dflt_info).
+Proof.
+  induction n; intros a dst src Hle Hlen.
+  - cbn. split; [reflexivity|]. split; intros; [lia|reflexivity].
+  - rewrite seq_S. cbn [plus]. unfold copy_loop. rewrite fold_left_app. cbn [fold_left].
+    fold (copy_loop a dst src (seq 0 n)).
+    destruct (IHn a dst src Hle ltac:(lia)) as (HL & Hin & Hout).
+    set (r := copy_loop a dst src (seq 0 n)) in *.
+    assert (Hv : aget r (src + n) = nth (src + n) a dflt_info).
+    { unfold aget. apply Hout. lia. }
+    rewrite Hv. split; [rewrite aset_length; exact HL|]. split; intros j Hj.
+    + destruct (Nat.eq_dec j (dst + n)).
+      * subst j. rewrite nth_aset_eq by lia. f_equal. lia.
+      * rewrite nth_aset_neq by lia. apply Hin. lia.
+    + rewrite nth_aset_neq by lia. apply Hout. lia.
+Qed.
+
+(* ---- copy_loop, backwards: for i in (0..n).rev(): a[dst+i] = a[src+i], src <= dst *)
+Lemma copy_bwd : forall n a dst src, src <= dst -> dst + n <= length a ->
+  length (copy_loop a dst src (rev (seq 0 n))) = length a /\
+  (forall j, dst <= j < dst + n -> nth j (copy_loop a dst src (rev (seq 0 n))) dflt_info = nth (src + (j - dst)) a dflt_info) /\
+  (forall j, ~ (dst <= j < dst + n) -> nth j (copy_loop a dst src (rev (seq 0 n))) dflt_info = nth j a dflt_info).
+Proof.
+  induction n; intros a dst src Hle Hlen.
+  - cbn. split; [reflexivity|]. split; intros; [lia|reflexivity].
+  - rewrite seq_S, rev_app_distr. cbn [plus rev app]. unfold copy_loop. cbn [fold_left].
+    set (a1 := aset a (dst + n) (aget a (src + n))).
+    fold (copy_loop a1 dst src (rev (seq 0 n))).
+    assert (HL1 : length a1 = length a) by apply aset_length.
+    destruct (IHn a1 dst src Hle ltac:(lia)) as (HL & Hin & Hout).
+    split; [lia|]. split; intros j Hj.
+    + destruct (Nat.eq_dec j (dst + n)).
+      * subst j. rewrite Hout by lia. unfold a1. rewrite nth_aset_eq by lia. unfold aget. f_equal. lia.
+      * rewrite Hin by lia. unfold a1. apply nth_aset_neq; lia.
+    + rewrite Hout by lia. unfold a1. apply nth_aset_neq; lia.
+Qed.
+
+(* ---- write_loop: for i in 0..len(v): a[p+i] = v[i] *)
+Lemma write_loop_k : forall k a p v, k <= length v -> p + k <= length a ->
+  let r := fold_left (fun a i => aset a (p + i) (aget v i)) (seq 0 k) a in
+  length r = length a /\
+  (forall j, p <= j < p + k -> nth j r dflt_info = nth (j - p) v dflt_info) /\
+  (forall j, ~ (p <= j < p + k) -> nth j r dflt_info = nth j a dflt_info).
+Proof.
+  induction k; intros a p v Hk Hlen.
+  - cbn. split; [reflexivity|]. split; intros; [lia|reflexivity].
+  - rewrite seq_S. cbn [plus]. cbv zeta. rewrite fold_left_app. cbn [fold_left].
+    destruct (IHk a p v ltac:(lia) ltac:(lia)) as (HL & Hin & Hout). cbv zeta in HL, Hin, Hout.
+    set (r := fold_left (fun a i => aset a (p + i) (aget v i)) (seq 0 k) a) in *.
+    split; [rewrite aset_length; exact HL|]. split; intros j Hj.
+    + destruct (Nat.eq_dec j (p + k)).
+      * subst j. rewrite nth_aset_eq by lia. unfold aget. f_equal. lia.
+      * rewrite nth_aset_neq by lia. apply Hin. lia.
+    + rewrite nth_aset_neq by lia. apply Hout. lia.
+Qed.
+
+Lemma write_loop_spec : forall a p v, p + length v <= length a ->
+  length (write_loop a p v) = length a /\
+  (forall j, p <= j < p + length v -> nth j (write_loop a p v) dflt_info = nth (j - p) v dflt_info) /\
+  (forall j, ~ (p <= j < p + length v) -> nth j (write_loop a p v) dflt_info = nth j a dflt_info).
+Proof. intros. unfold write_loop. apply (write_loop_k (length v) a p v); lia. Qed.
+
+Lemma read_block_length : forall a p k, length (read_block a p k) = k.
+Proof. intros. unfold read_block. now rewrite map_length, seq_length. Qed.
+
+Lemma nth_read_block : forall a p k i, i < k -> nth i (read_block a p k) dflt_info = nth (p + i) a dflt_info.
+Proof.
+  intros. unfold read_block.
+  rewrite (nth_indep _ dflt_info (aget a (p + 0))) by (rewrite map_length, seq_length; lia).
+  change (aget a (p + 0)) with ((fun i => aget a (p + i)) 0).
+  rewrite map_nth. rewrite seq_nth by lia. reflexivity.
+Qed.
+
+(* ------------------------------------------------------------------ rearrangement: the verb body *)
+
+Lemma nth_app3_1 : forall (A M D : list info) k, k < length A -> nth k (A ++ M ++ D) dflt_info = nth k A dflt_info.
+Proof. intros. now rewrite app_nth1. Qed.
+Lemma nth_app3_2 : forall (A M D : list info) k, k < length M ->
+  nth (length A + k) (A ++ M ++ D) dflt_info = nth k M dflt_info.
+Proof. intros. rewrite app_nth2_plus. now rewrite app_nth1. Qed.
+Lemma nth_app3_3 : forall (A M D : list info) k,
+  nth (length A + length M + k) (A ++ M ++ D) dflt_info = nth k D dflt_info.
+Proof. intros. rewrite <- Nat.add_assoc, app_nth2_plus. now rewrite app_nth2_plus. Qed.
+
+(* the copy / write-back part of the verb: the first l and the last r glyphs change sides, the
+   middle keeps its order — for every middle *)
+Lemma rearrange_core : forall (A mid D : list info),
+  let l := length A in let r := length D in
+  let rng := A ++ mid ++ D in
+  let en := length rng in
+  let n := en - l - r in
+  let a1 := if r <? l then copy_loop rng r l (seq 0 n)
+            else if l <? r then copy_loop rng r l (rev (seq 0 n)) else rng in
+  let a2 := write_loop a1 0 (read_block rng (en - r) r) in
+  let a3 := write_loop a2 (en - l) (read_block rng 0 l) in
+  a3 = D ++ mid ++ A.
+Proof.
+  intros A mid D l r rng en n a1 a2 a3.
+  assert (Hen : en = l + length mid + r) by (unfold en, rng, l, r; rewrite !app_length; lia).
+  assert (Hn : n = length mid) by (unfold n; lia).
+  (* a1 *)
+  assert (H1 : length a1 = en /\
+               (forall j, r <= j < r + n -> nth j a1 dflt_info = nth (l + (j - r)) rng dflt_info) /\
+               (forall j, ~ (r <= j < r + n) -> nth j a1 dflt_info = nth j rng dflt_info)).
+  { unfold a1. destruct (r <? l) eqn:E1.
+    - apply Nat.ltb_lt in E1. apply copy_fwd; fold en; lia.
+    - destruct (l <? r) eqn:E2.
+      + apply Nat.ltb_lt in E2. apply copy_bwd; fold en; lia.
+      + apply Nat.ltb_ge in E1. apply Nat.ltb_ge in E2. assert (l = r) by lia.
+        split; [reflexivity|]. split; intros; [f_equal; lia|reflexivity]. }
+  destruct H1 as (L1 & In1 & Out1).
+  (* a2 *)
+  assert (Lr : length (read_block rng (en - r) r) = r) by apply read_block_length.
+  assert (Ll : length (read_block rng 0 l) = l) by apply read_block_length.
+  destruct (write_loop_spec a1 0 (read_block rng (en - r) r) ltac:(lia)) as (L2 & In2 & Out2).
+  fold a2 in L2, In2, Out2. rewrite Lr in In2, Out2.
+  destruct (write_loop_spec a2 (en - l) (read_block rng 0 l) ltac:(lia)) as (L3 & In3 & Out3).
+  fold a3 in L3, In3, Out3. rewrite Ll in In3, Out3.
+  apply (nth_ext _ _ dflt_info dflt_info).
+  - rewrite L3, L2, L1, Hen, !app_length. fold l r. lia.
+  - intros j Hj. rewrite L3, L2, L1 in Hj.
+    destruct (Nat.lt_ge_cases j r) as [Hjr|Hjr].
+    + (* the first r glyphs: D *)
+      rewrite Out3 by lia. rewrite In2 by lia. rewrite nth_read_block by lia.
+      replace (en - r + (j - 0)) with (l + length mid + j) by lia.
+      unfold rng, l. rewrite nth_app3_3. symmetry. apply nth_app3_1. fold r. lia.
+    + destruct (Nat.lt_ge_cases j (r + n)) as [Hjm|Hjm].
+      * (* the middle *)
+        rewrite Out3 by lia. rewrite Out2 by lia. rewrite In1 by lia.
+        unfold rng, l. rewrite nth_app3_2 by lia.
+        replace j with (length D + (j - r)) at 2 by (fold r; lia).
+        symmetry. apply nth_app3_2. lia.
+      * (* the last l glyphs: A *)
+        rewrite In3 by lia. rewrite nth_read_block by lia. cbn [plus].
+        unfold rng. rewrite nth_app3_1 by (fold l; lia).
+        replace j with (length D + length mid + (j - (en - l))) at 2 by (fold r; lia).
+        symmetry. apply nth_app3_3.
+Qed.
+
+Lemma upd_nth_app_r : forall A (P Q : list A) k v, upd_nth (P ++ Q) (length P + k) v = P ++ upd_nth Q k v.
+Proof. induction P; intros; cbn; [reflexivity|]. now rewrite IHP. Qed.
+
+Lemma upd_nth_app_r0 : forall A (P Q : list A) v, upd_nth (P ++ Q) (length P) v = P ++ upd_nth Q 0 v.
+Proof. intros. rewrite <- (Nat.add_0_r (length P)) at 1. apply upd_nth_app_r. Qed.
+Lemma nth_app_len0 : forall A (P Q : list A) d, nth (length P) (P ++ Q) d = nth 0 Q d.
+Proof. intros. rewrite <- (Nat.add_0_r (length P)) at 1. apply app_nth2_plus. Qed.
+
+Lemma aswap_last2 : forall P x y, aswap (P ++ [x; y]) (length P + 1) (length P) = P ++ [y; x].
+Proof.
+  intros. unfold aswap, aget, aset. cbv zeta.
+  rewrite app_nth2_plus, nth_app_len0. cbn [nth].
+  rewrite upd_nth_app_r. cbn [upd_nth]. rewrite upd_nth_app_r0. reflexivity.
+Qed.
+
+Lemma aswap_first2 : forall x y T, aswap (x :: y :: T) 0 1 = y :: x :: T.
+Proof. reflexivity. Qed.
+
+Definition swapif (b : bool) (l : list info) : list info := if b then rev l else l.
+
+Lemma map_l_le2 : forall m, map_l m <= 2. Proof. intro. unfold map_l. lia. Qed.
+Lemma map_r_le2 : forall m, map_r m <= 2. Proof. intro. unfold map_r. lia. Qed.
+Lemma map_rev_l_2 : forall m, map_rev_l m = true -> map_l m = 2.
+Proof. unfold map_rev_l, map_l. intros m H. apply N.eqb_eq in H. rewrite H. reflexivity. Qed.
+Lemma map_rev_r_2 : forall m, map_rev_r m = true -> map_r m = 2.
+Proof. unfold map_rev_r, map_r. intros m H. apply N.eqb_eq in H. rewrite H. reflexivity. Qed.
+
+(* the whole verb body on the marked range A ++ mid ++ D (|A| = l, |D| = r nibbles of MAP) *)
+Lemma rearrange_range_spec : forall m A mid D,
+  length A = map_l m -> length D = map_r m -> length (A ++ mid ++ D) <= MAX_CONTEXT_LENGTH ->
+  rearrange_range m (A ++ mid ++ D) = swapif (map_rev_r m) D ++ mid ++ swapif (map_rev_l m) A.
+Proof.
+  intros m A mid D HA HD Hlen. unfold rearrange_range.
+  assert (Hen : length (A ++ mid ++ D) = length A + length mid + length D) by (rewrite !app_length; lia).
+  rewrite <- HA, <- HD.
+  replace ((length A + length D <=? length (A ++ mid ++ D)) && (length (A ++ mid ++ D) <=? MAX_CONTEXT_LENGTH)) with true.
+  2:{ symmetry. apply andb_true_iff. split; apply Nat.leb_le; lia. }
+  cbv zeta. rewrite (rearrange_core A mid D).
+  destruct (map_rev_l m) eqn:RL.
+  - apply map_rev_l_2 in RL. rewrite <- HA in RL.
+    destruct A as [|x [|y [|? ?]]]; cbn in RL; try discriminate.
+    replace (length ([x; y] ++ mid ++ D) - 1) with (length (D ++ mid) + 1) by (rewrite !app_length; cbn; lia).
+    replace (length ([x; y] ++ mid ++ D) - 2) with (length (D ++ mid)) by (rewrite !app_length; cbn; lia).
+    rewrite (app_assoc D mid [x; y]), aswap_last2, <- app_assoc.
+    destruct (map_rev_r m) eqn:RR.
+    + apply map_rev_r_2 in RR. rewrite <- HD in RR.
+      destruct D as [|c [|d [|? ?]]]; cbn in RR; try discriminate. reflexivity.
+    + reflexivity.
+  - destruct (map_rev_r m) eqn:RR.
+    + apply map_rev_r_2 in RR. rewrite <- HD in RR.
+      destruct D as [|c [|d [|? ?]]]; cbn in RR; try discriminate. reflexivity.
+    + reflexivity.
+Qed.
+
+(* ranges that are too short for the verb, or longer than HB_MAX_CONTEXT_LENGTH, are left alone *)
+Lemma rearrange_range_skip : forall m rng,
+  length rng < map_l m + map_r m \/ MAX_CONTEXT_LENGTH < length rng -> rearrange_range m rng = rng.
+Proof.
+  intros m rng H. unfold rearrange_range.
+  replace ((map_l m + map_r m <=? length rng) && (length rng <=? MAX_CONTEXT_LENGTH)) with false; [reflexivity|].
+  symmetry. apply andb_false_iff. destruct H; [left|right]; apply Nat.leb_gt; lia.
+Qed.
+
+Lemma verb_general : forall v A x D m, nth v REARR_MAP 0%N = m ->
+  length A = map_l m -> length D = map_r m -> length (A ++ x ++ D) <= MAX_CONTEXT_LENGTH ->
+  rearrange_range (nth v REARR_MAP 0%N) (A ++ x ++ D) = swapif (map_rev_r m) D ++ x ++ swapif (map_rev_l m) A.
+Proof. intros v A x D m <- HA HD HL. now apply rearrange_range_spec. Qed.
+
+Definition len_ok (l : list info) : Prop := length l <= MAX_CONTEXT_LENGTH.
+
+(* Apple's verb table, for every marked range (arbitrary middle x) within HB_MAX_CONTEXT_LENGTH *)
+Definition verb_table_statement : Prop := forall (a b c d : info) (x : list info),
+  (len_ok x -> rearrange_verb 0 x = x) /\
+  (len_ok (a :: x) -> rearrange_verb 1 (a :: x) = x ++ [a]) /\
+  (len_ok (x ++ [d]) -> rearrange_verb 2 (x ++ [d]) = d :: x) /\
+  (len_ok (a :: x ++ [d]) -> rearrange_verb 3 (a :: x ++ [d]) = d :: x ++ [a]) /\
+  (len_ok (a :: b :: x) -> rearrange_verb 4 (a :: b :: x) = x ++ [a; b]) /\
+  (len_ok (a :: b :: x) -> rearrange_verb 5 (a :: b :: x) = x ++ [b; a]) /\
+  (len_ok (x ++ [c; d]) -> rearrange_verb 6 (x ++ [c; d]) = c :: d :: x) /\
+  (len_ok (x ++ [c; d]) -> rearrange_verb 7 (x ++ [c; d]) = d :: c :: x) /\
+  (len_ok (a :: x ++ [c; d]) -> rearrange_verb 8 (a :: x ++ [c; d]) = c :: d :: x ++ [a]) /\
+  (len_ok (a :: x ++ [c; d]) -> rearrange_verb 9 (a :: x ++ [c; d]) = d :: c :: x ++ [a]) /\
+  (len_ok (a :: b :: x ++ [d]) -> rearrange_verb 10 (a :: b :: x ++ [d]) = d :: x ++ [a; b]) /\
+  (len_ok (a :: b :: x ++ [d]) -> rearrange_verb 11 (a :: b :: x ++ [d]) = d :: x ++ [b; a]) /\
+  (len_ok (a :: b :: x ++ [c; d]) -> rearrange_verb 12 (a :: b :: x ++ [c; d]) = c :: d :: x ++ [a; b]) /\
+  (len_ok (a :: b :: x ++ [c; d]) -> rearrange_verb 13 (a :: b :: x ++ [c; d]) = c :: d :: x ++ [b; a]) /\
+  (len_ok (a :: b :: x ++ [c; d]) -> rearrange_verb 14 (a :: b :: x ++ [c; d]) = d :: c :: x ++ [a; b]) /\
+  (len_ok (a :: b :: x ++ [c; d]) -> rearrange_verb 15 (a :: b :: x ++ [c; d]) = d :: c :: x ++ [b; a]).
+
+(* verbs whose D part is empty: the range is A ++ x, written A ++ x ++ [] for the general lemma *)
+Ltac verb_noD v A x m H :=
+  let E := fresh "E" in
+  assert (E : length (A ++ x ++ []) <= MAX_CONTEXT_LENGTH) by (rewrite app_nil_r; exact H);
+  pose proof (verb_general v A x [] m eq_refl eq_refl eq_refl E) as E';
+  rewrite app_nil_r in E'; exact E'.
+Ltac verb_D v A x D m H := exact (verb_general v A x D m eq_refl eq_refl eq_refl H).
+
+Lemma verb_table : verb_table_statement.
+Proof.
+  intros a b c d x. unfold len_ok, rearrange_verb.
+  repeat split; intro H.
+  - verb_noD 0 (@nil info) x 0x00%N H.
+  - verb_noD 1 [a] x 0x10%N H.
+  - verb_D 2 (@nil info) x [d] 0x01%N H.
+  - verb_D 3 [a] x [d] 0x11%N H.
+  - verb_noD 4 [a; b] x 0x20%N H.
+  - verb_noD 5 [a; b] x 0x30%N H.
+  - verb_D 6 (@nil info) x [c; d] 0x02%N H.
+  - verb_D 7 (@nil info) x [c; d] 0x03%N H.
+  - verb_D 8 [a] x [c; d] 0x12%N H.
+  - verb_D 9 [a] x [c; d] 0x13%N H.
+  - verb_D 10 [a; b] x [d] 0x21%N H.
+  - verb_D 11 [a; b] x [d] 0x31%N H.
+  - verb_D 12 [a; b] x [c; d] 0x22%N H.
+  - verb_D 13 [a; b] x [c; d] 0x32%N H.
+  - verb_D 14 [a; b] x [c; d] 0x23%N H.
+  - verb_D 15 [a; b] x [c; d] 0x33%N H.
+Qed.
